@@ -158,14 +158,27 @@ class _ThreadingShim:
         return getattr(_real_threading, k)
 
 
+from .hang import RunHang    # noqa: E402  (the run polls without end: with
+# inline threads and atomic children every poll iteration of an in-process run
+# is deterministic, and a run needs a few iterations per layer; raised from the
+# virtual sleep after SLEEP_CAP iterations, re-raised by run_world after it has
+# cleaned up, turned into a violation "run_does_not_terminate" by explore)
+
+
+SLEEP_CAP = 20000
+
+
 class _TimeShim:
     """runner.time: sleep is a no-op; the clock can be warped forward by the
     world (a layer or test that "takes" minutes without taking them)."""
     offset = 0.0
+    sleeps = 0
 
     @staticmethod
     def sleep(x):
-        pass
+        _TimeShim.sleeps += 1
+        if _TimeShim.sleeps > SLEEP_CAP:
+            raise RunHang('the run called time.sleep %d times (its polling loop does not end)' % _TimeShim.sleeps)
 
     def time(self):
         return _real_time.time() + _TimeShim.offset
@@ -362,6 +375,8 @@ def run_world(spec, argv, child_hook=None, warnings=None, probe=True,
     R.threading = _ThreadingShim()
     R.time = _TimeShim()
     _TimeShim.offset = 0.0
+    saved_sleeps = _TimeShim.sleeps
+    _TimeShim.sleeps = 0
     saved_warp = worldrt.WARP
     worldrt.WARP = _TimeShim.warp
     if want_state:
@@ -416,6 +431,9 @@ def run_world(spec, argv, child_hook=None, warnings=None, probe=True,
         worldrt.uninstall(prev_mod)
         CUR_OUT, CUR_ERR = saved_cur
         _CTX.pop()
+        _TimeShim.sleeps = saved_sleeps
+    if res.escaped == 'RunHang':
+        raise RunHang('argv %s: %s' % (list(argv), res.escaped_tb[-1500:]))
     res.wall = _real_time.time() - t0
     res.out = out.value()
     res.out_own = out.own_masked()
